@@ -19,6 +19,8 @@ import Reamber.Lemmas.SMFill
 import Reamber.Lemmas.SMSlot
 import Reamber.Lemmas.SMScan
 import Reamber.Props.C10
+import Reamber.Lemmas.TimingInverse
+import Reamber.Lemmas.SMText
 import Reamber.Lemmas.Snapper
 import Mathlib.Tactic.NormNum
 import Reamber.Generated.SMTables
@@ -357,14 +359,122 @@ theorem written_beats_exact (t0 : Rat) (cs : List BcSnap)
   exact beats_run_exact defaultGrid (gridOK_grid (by decide)) t0 cs hwf hs h0 (by rw [hg]; exact hgc) hm 4 hM _
     (by rw [hg]; exact hts)
 
+/-- **The millisecond step**: if the written `#OFFSET` / `#BPMS` denote the start time `t0` and the tempo-change list
+`cs` (4-beat metronome, C10's well-formedness), then the StepMania time of the beat `beatAt t0 cs t` — the beat the
+writer slots for an object at time `t ≥ t0` — is exactly `t` (C10 `timeAt_snapOfBeat_beatAt`). -/
+theorem written_time_exact (t0 : Rat) (cs : List BcSnap) (hwf : wfChanges cs = true) (hs : sortedSnaps cs = true)
+    (h0 : firstAtZero cs = true) (hM : ∀ c ∈ cs, c.met = 4)
+    (offsetSec : Rat) (bpms : List (Rat × Rat)) (ho : -(1000 * offsetSec) = t0) (hb : changesOf bpms = cs)
+    (t : Rat) (ht : t0 ≤ t) : timeOfBeat offsetSec bpms (beatAt t0 cs t) = t := by
+  unfold timeOfBeat
+  rw [ho, hb]
+  exact timeAt_snapOfBeat_beatAt t0 cs t hwf hs h0 hM ht
+
+theorem snapOfBeat_measure_line (m : Int) : snapOfBeat (4 * (m : Rat)) = ⟨m, 0, some 4⟩ := by
+  unfold snapOfBeat
+  have h : 4 * (m : Rat) / 4 = (m : Rat) := by ring
+  simp only [h, Rat.floor_intCast]
+  congr 1
+  ring
+
+/-- **`#BPMS` of measure-line tempos denote the tempo list**: for a tempo-change list whose changes all sit on
+measure lines (beat 0 of measure `m`, 4-beat metronome) in ascending order, the pairs `round(4m, 6) = bpm` the writer
+emits (beat of change = 4m, `round6_exact`) denote, by `changesOf`, exactly that list. -/
+theorem changesOf_written_measure_lines (cs : List BcSnap) (hs : sortedSnaps cs = true)
+    (hl : ∀ c ∈ cs, c.snap.beat = 0 ∧ c.met = 4 ∧ c.snap.met = some 4) :
+    changesOf (cs.map (fun c => (round6 (4 * (c.snap.measure : Rat)), c.bpm))) = cs := by
+  have hr : ∀ m : Int, round6 (4 * (m : Rat)) = 4 * (m : Rat) := by
+    intro m
+    have := round6_exact (4000000 * m)
+    have e : ((4000000 * m : Int) : Rat) / 1000000 = 4 * (m : Rat) := by push_cast; ring
+    rw [e] at this; exact this
+  unfold changesOf
+  have hsorted : (cs.map (fun c => (round6 (4 * (c.snap.measure : Rat)), c.bpm))).Pairwise
+      (fun a b => decide (a.1 ≤ b.1) = true) := by
+    rw [List.pairwise_map]
+    refine (sortedSnaps_pairwise hs).imp_of_mem ?_
+    intro a b ha hb hab
+    simp only [hr, decide_eq_true_eq]
+    have hba := (hl b hb).1
+    have haa := (hl a ha).1
+    simp only [Snap.le, Snap.lt, Snap.eqv, haa, hba, Bool.or_eq_true, Bool.and_eq_true, decide_eq_true_eq] at hab
+    have : a.snap.measure ≤ b.snap.measure := by
+      rcases hab with (h | h) | h
+      · exact le_of_lt h
+      · exact le_of_eq h.1
+      · exact le_of_eq h.1
+    have : (a.snap.measure : Rat) ≤ (b.snap.measure : Rat) := by exact_mod_cast this
+    linarith
+  rw [isort_eq_self _ hsorted, List.map_map]
+  conv => rhs; rw [← List.map_id cs]
+  apply List.map_congr_left
+  intro c hc
+  obtain ⟨hb, hm, hsm⟩ := hl c hc
+  simp only [Function.comp, hr, snapOfBeat_measure_line, id]
+  cases c with
+  | mk bpm met snap =>
+    cases snap with
+    | mk me be mt =>
+      simp only at hb hm hsm
+      subst hb hm hsm
+      rfl
+
+theorem stringTags_facts : ∀ ta ∈ stringTags,
+    ':' ∉ ta.1 ∧ strip ta.1 = ta.1 ∧ ta.1.head? = some '#' ∧ ta.1.isEmpty = false ∧ stringTags.lookup ta.1 = some ta.2 := by
+  decide +kernel
+
+/-- **A plain string header line reads back** (all 16 tags of `_write_metadata` whose line is `#TAG:{value};`): the
+token `#TAG:value` — for a value without ':' and without surrounding whitespace — read by `_read_metadata` stores
+exactly `value` under the attribute the writer took it from. -/
+theorem string_line_roundtrip (ta : Str × Str) (hta : ta ∈ stringTags) (v : Str) (hv : ':' ∉ v) (hs : strip v = v)
+    (st : MState) :
+    metaLine st (ta.1 ++ ':' :: v) = .ok { st with hdr := { st.hdr with strs := (ta.2, v) :: st.hdr.strs } } := by
+  obtain ⟨h1, h2, h3, h4, h5⟩ := stringTags_facts ta hta
+  have hline : (ta.1 ++ ':' :: v).isEmpty = false := by
+    cases hh : ta.1 with
+    | nil => simp [hh] at h4
+    | cons a b => rfl
+  have hsplit : splitOn ':' (ta.1 ++ ':' :: v) = [ta.1, v] := by
+    rw [splitOn_append_sep ':' _ _ h1, splitOn_no_sep ':' v hv]
+  unfold metaLine
+  simp only [hline, Bool.false_eq_true, if_false, hsplit, List.map_cons, List.map_nil, h2, hs, List.headD_cons, h4,
+    List.tail_cons]
+  have hct : commentTrick ta.1 = ta.1 := by simp [commentTrick, h3]
+  simp only [hct, h5, bind, Except.bind, hs]
+
+/-- **`write_read_exact_partial` — one object, end to end in time.**  Let the written `#OFFSET`/`#BPMS` denote `t0` and
+a tempo list `cs` in C10's domain with the 4-beat metronome (`changesOf_written_measure_lines` for measure-line
+tempos).  For an object at time `t ≥ t0` whose slotted beat is `beatAt t0 cs t` (`written_beats_exact`), in a
+measure whose row count is divisible by the object's denominator (`den_dvd_denMax`): the row the writer chooses,
+interpreted by the StepMania rules (`4m + 4r/R`, then integration over the written `#BPMS` from `−1000·#OFFSET`),
+is at exactly `t`. -/
+theorem write_read_exact_partial (t0 : Rat) (cs : List BcSnap) (hwf : wfChanges cs = true) (hs : sortedSnaps cs = true)
+    (h0 : firstAtZero cs = true) (hM : ∀ c ∈ cs, c.met = 4)
+    (offsetSec : Rat) (bpms : List (Rat × Rat)) (ho : -(1000 * offsetSec) = t0) (hb : changesOf bpms = cs)
+    (t : Rat) (ht : t0 ≤ t) (col : Nat) (ch : Char) (dmax : Nat) (hpos : 0 < dmax)
+    (hd : (slotOf (beatAt t0 cs t) col ch).den ∣ dmax) :
+    timeOfBeat offsetSec bpms
+      (4 * ((slotOf (beatAt t0 cs t) col ch).measure : Rat) +
+        4 * ((rowOf (slotOf (beatAt t0 cs t) col ch).num (slotOf (beatAt t0 cs t) col ch).den dmax : Nat) : Rat) /
+          (dmax : Rat)) = t := by
+  rw [slot_beat_exact (beatAt t0 cs t) col ch dmax hpos hd]
+  exact written_time_exact t0 cs hwf hs h0 hM offsetSec bpms ho hb t ht
+
 /-!
-`write_read_exact_partial` — what is still missing for the single statement "denote (write ms) = ms":
-* `timeAt t0 cs (position of beatAt t0 cs t) = t` (C10 has `beatAt` monotone/exact but not this inverse), so the
-  pieces above give *beats* (`written_beats_exact` ∘ `slot_beat_exact` ∘ `cells_no_collision` ∘ `scanRows_renderRows`:
-  the symbol of every object sits in the text at exactly its beat) but not yet *milliseconds*;
-* the inverse of `pairing_spec` (a head and its tail written to one column are paired again by the rule);
-* the header lines as text (only `#SELECTABLE` is proved) and `changesOf (written #BPMS) = cs` for measure-line tempos
-  (from `round6_exact`).
+what is still missing for the full `write_read_exact` for the single statement "denote (write ms) = ms":
+Proved chain: `written_beats_exact` (slotted beat = `beatAt t`) → `slot_beat_exact` (row denotes that beat) →
+`cells_no_collision` / `last_write_wins` (the symbol is in that cell) → `scanRows_renderRows` (the text scans back to the
+rows) → `changesOf_written_measure_lines` (the written `#BPMS` denote the tempo list) → `written_time_exact` (the
+StepMania time of that beat is `t`); `string_line_roundtrip`, `selectable_roundtrip` for the header.
+NOT proved, so the single statement is not assembled:
+* `pairing_inverse`: for holds/rolls that do not overlap within a column, the head and tail symbols written in beat
+  order are paired again by `pairAll` into exactly those holds/rolls (needs an induction over the beat-sorted event
+  stream with the set of open longs as invariant);
+* that the symbols of a measure's grid, read row by row (`events`), are the cells of `cells_no_collision` in beat order
+  (a statement about `zipIdx`/`cellAt` on rectangular grids);
+* the numeric header lines (`#OFFSET`, `#SAMPLESTART`, `#SAMPLELENGTH`, `#BPMS` bpm values) as text — they depend on
+  Python's float `repr`, a parameter of the model (DESIGN K3);
+* the bookkeeping that threads these through `SM.write` / `denote` for several charts.
 The check evaluates the whole composition on every case (S).
 -/
 
